@@ -518,3 +518,12 @@ pub open spec fn unexpected_type_err(v: Value, expect: Seq<char>) -> Error { Err
 pub open spec fn conv_can_ok<V: TryFrom<Value, Error = Error>>(x: Value) -> bool {
     exists|u: V| call_ensures(<V as TryFrom<Value>>::try_from, (x,), Ok::<V, Error>(u))
 }
+
+/// C17, maps built from Rust maps: the entry (k2, v2) of the result comes from an entry of the source converted by K::into / V::into
+pub open spec fn conv_entry_src<K: Into<String>, V: Into<Value>>(m: Map<K, V>, k2: String, v2: Value) -> bool {
+    exists|k: K| m.dom().contains(k) && call_ensures(<K as Into<String>>::into, (k,), k2) && call_ensures(<V as Into<Value>>::into, (m[k],), v2)
+}
+/// ... and every source entry's converted key is present in the result
+pub open spec fn conv_entry_dst<K: Into<String>>(k: K, out: Map<String, Value>) -> bool {
+    exists|k2: String| call_ensures(<K as Into<String>>::into, (k,), k2) && out.dom().contains(k2)
+}
